@@ -4,10 +4,10 @@ package main
 // TS-READ.
 
 import (
-	"os"
 	"fmt"
 	"go/token"
 	"go/types"
+	"os"
 	"sort"
 	"strings"
 
@@ -572,7 +572,7 @@ func tsByFold(c *Ctx, b *Builder) bool {
 	cases := []kase{{"(none)", true, ""}, {"(none)", false, ""}, {"timestamp-micros", false, "timestamp-micros"}, {"timestamp-millis", false, "timestamp-millis"}, {"(other)", false, "x-some-other-logical-type"}}
 	type verdict struct {
 		key, pos, good, bad string
-		ok                bool
+		ok                  bool
 	}
 	var vs []verdict
 	mults := map[int64]bool{}
